@@ -62,7 +62,17 @@ class Axis:
                 return {"adt": SIZE, "args": []}
             cands = [g for g in self.prog.by_path.get(p, []) if g.kind in ("fn", "assoc_fn")]
             if len(cands) == 1 and cands[0].output is not None:
-                return _deref_ty(cands[0].output)   # declared return type of the resolved crate-local callee
+                out = _deref_ty(cands[0].output)   # declared return type of the resolved crate-local callee
+                if isinstance(out, dict) and "param" in out and len(out) <= 2:
+                    # a generic return type: take the type argument of this call
+                    names = [g_["name"] for g_ in cands[0].generics if g_.get("kind", "type") != "lifetime"]
+                    gargs = [a for a in t[2] if a != "'_"]
+                    if out["param"] in names and names.index(out["param"]) < len(gargs):
+                        ga = gargs[names.index(out["param"])]
+                        if ga in self.prog.adts:
+                            return {"adt": ga, "args": []}
+                    return None
+                return out
             return None
         return None
 
@@ -106,9 +116,9 @@ class Axis:
                     fld = a["variants"][0]["fields"][t[2]]
                     if isinstance(fld["ty"], str) and fld["ty"] in ("u8", "u16", "u32", "u64", "usize", "i8", "i16", "i32", "i64", "isize"):
                         nm = fld["name"]
-                        if nm in ("x", "width", "left", "right", "columns") or nm.endswith(("_x", "_width")):
+                        if nm in ("x", "width", "left", "right", "columns"):
                             return "X"
-                        if nm in ("y", "height", "top", "bottom", "rows") or nm.endswith(("_y", "_height")):
+                        if nm in ("y", "height", "top", "bottom", "rows"):
                             return "Y"
                         return "N"
             return "M"
@@ -143,7 +153,10 @@ class Axis:
             if name in JOIN_CALLS and len(args) >= 2 and ("core::num" in t[1] or "core::cmp" in t[1] or "Ord" in t[1]):
                 r = args[0]
                 for b in args[1:]:
-                    r = self._join(r, b, name, t)
+                    if name == "min" and {r, b} == {"X", "Y"}:
+                        r = "N"   # the smaller of an x-limit and a y-limit fits both axes (a dot that fits the box)
+                    else:
+                        r = self._join(r, b, name, t)
                 return r
             if name in KEEP_CALLS and args:
                 return args[0]
